@@ -37,10 +37,11 @@ contract(
 from pyvc.spec import A1, A2, OBJ, REAL, Loop, Summary, spec  # noqa: E402
 
 spec("ode_of(case, eq, x)", None, ret="int", ptypes=["int", "int", "int"])      # identity of run_ode's result
-spec("j_of(ode)", None, ret="real", ptypes=["int"])                              # j_from_ode of that result
+spec("j_of(ode, sdj, g)", None, ret="real", ptypes=["int", "int", "real"])       # j_from_ode of that result, for the given
+#                                                                                   number of state dimensions in J and gamma
 spec("agg(results, n)", None, ret="real", ptypes=["arr1r", "int"])               # sum_up_results over results[0..n)
 spec("j_ok(z)", "0.0 <= z and z <= 1e100", ret="bool")
-spec("J(k, eq, x)", "j_of(ode_of(k, eq, x))", ret="real")
+spec("J(k, eq, x, sdj, g)", "j_of(ode_of(k, eq, x), sdj, g)", ret="real")
 
 _run_ode = contract("<opaque>:run_ode", params={"start": OBJ, "equations": PYINT, "controller": PYINT, "x": PYINT,
                                                 "controller_dim": PYINT, "steps": PYINT, "time": REAL},
@@ -48,9 +49,12 @@ _run_ode = contract("<opaque>:run_ode", params={"start": OBJ, "equations": PYINT
                     assumptions=["run_ode is a pure function of (start, equations, controller, parameters, controller_dim, "
                                  "steps, time): it allocates its own buffers and keeps no state (checked by the bounded "
                                  "harness of C10 only)"])
+from pyvc.extract import real_defaults as _real_defaults  # noqa: E402
+_jd = _real_defaults("moptipyapps.dynamic_control.ode:j_from_ode")      # use_state_dims=-1, gamma=0.1 in the pinned tree
 _j_from_ode = contract("<opaque>:j_from_ode", params={"ode": PYINT, "state_dim": PYINT, "state_dims_in_j": PYINT,
                                                       "gamma": REAL},
-                       returns=REAL, ensures=["result == j_of(ode)"],
+                       defaults={"state_dims_in_j": _jd.get("use_state_dims"), "gamma": _jd.get("gamma")},
+                       returns=REAL, ensures=["result == j_of(ode, state_dims_in_j, gamma)"],
                        assumptions=["j_from_ode is a pure function of the simulation result (contract proved under C10)"])
 
 _ev_fields = dict(_fields)
@@ -79,19 +83,19 @@ contract(
     asserts={"after for #0": [tag("C11", "buffer-completely-rewritten-before-aggregation",
                                   "forall(k, 0, shape(results, 0), written(results, k))")]},
     loops={"0": Loop(inv=["0 <= i and i <= shape(training, 0)",
-                          "forall(k, 0, i, written(results, k) and results[k] == J(k, equations, x) and j_ok(results[k]))",
+                          "forall(k, 0, i, written(results, k) and results[k] == J(k, equations, x, self.__state_dims_in_j, self.__gamma) and j_ok(results[k]))",
                           # one-sided: data never shrinks and grows only while collecting (how many blocks per case is not
                           # part of the property)
                           "ncol >= at_loop(ncol) and (self.__collect or ncol == at_loop(ncol))"])},
     ensures=[
         tag("C11", "failure-value-iff-some-case-fails",
             "(result == 1e200 and not j_ok(agg(self.__results, shape(self.__training, 0))) and "
-            "forall(k, 0, shape(self.__training, 0), j_ok(J(k, self.__equations, x)))) or "
-            "(result == 1e200 and exists(k, 0, shape(self.__training, 0), not j_ok(J(k, self.__equations, x)))) or "
+            "forall(k, 0, shape(self.__training, 0), j_ok(J(k, self.__equations, x, self.__state_dims_in_j, self.__gamma)))) or "
+            "(result == 1e200 and exists(k, 0, shape(self.__training, 0), not j_ok(J(k, self.__equations, x, self.__state_dims_in_j, self.__gamma)))) or "
             "(j_ok(result) and result == agg(self.__results, shape(self.__training, 0)))"),
         tag("C11", "aggregate-over-all-cases",
             "implies(result != 1e200, forall(k, 0, shape(self.__training, 0), "
-            "self.__results[k] == J(k, self.__equations, x)))"),
+            "self.__results[k] == J(k, self.__equations, x, self.__state_dims_in_j, self.__gamma)))"),
         tag("C11", "range", "result == 1e200 or (0.0 <= result and result <= 1e100)"),
         tag("C11", "collects-only-in-collect-mode", "self.__collect or ncol == old(ncol)"),
         tag("C11", "recorded-data-never-shrinks", "ncol >= old(ncol)"),
